@@ -69,3 +69,18 @@ End Spans.
 Definition stats_sum (l : list stats) : stats :=
   mkStats (list_sum (map s_searches l)) (list_sum (map s_with_match l)) (list_sum (map s_bytes_searched l))
           (list_sum (map s_bytes_printed l)) (list_sum (map s_matched_lines l)) (list_sum (map s_matches l)).
+
+(* ---- the part of a stream a printer with a per-file limit consumes: everything up to and including
+   the limit-th Matched event (the whole stream when there are fewer, nothing for -m 0) ---- *)
+Definition limit_reached (limit : option nat) (n : nat) : bool :=
+  match limit with None => false | Some L => Nat.leb L n end.
+Fixpoint consumed_from (limit : option nat) (mc : nat) (evs : list sevent) : list sevent :=
+  match evs with
+  | [] => []
+  | e :: r =>
+    if is_matched e then
+      if limit_reached limit (mc + 1) then [e] else e :: consumed_from limit (mc + 1) r
+    else e :: consumed_from limit mc r
+  end.
+Definition consumed (limit : option nat) (evs : list sevent) : list sevent :=
+  match limit with Some 0 => [] | _ => consumed_from limit 0 evs end.
